@@ -420,6 +420,15 @@ func checkC02(c *km.Ctx) {
 						}
 					}
 					if !okVal {
+						// a parsing helper hands the key back and the handler checks the strength of what it got:
+						// the value the handler holds (the one it certifies) is the checked one
+						for _, c2 := range km.CallsIn(fn) {
+							if km.CalleeFull(c2.Common()) == certgenPkg+".ValidatePublicKeyStrength" && km.Unwrap(c2.Common().Args[0]) == pub && km.InstrDominates(c2, ci) {
+								okVal = true
+							}
+						}
+					}
+					if !okVal {
 						validated = false
 					}
 				}
